@@ -694,6 +694,10 @@ func (c *Chain) fillPayload(p *ProposeCtx) {
 		if c.Scenario != nil && c.Scenario.Merge != nil {
 			doMerge = c.Scenario.Merge(c, p.Slot)
 		}
+		if c.ZeroHashMerge {
+			// one empty pre-merge block, then the transition block at once
+			doMerge = c.Stats.Get("bellatrix.payload_empty_premerge") >= 1
+		}
 		if !doMerge {
 			p.Ops["payload_empty_premerge"]++
 			return
@@ -725,6 +729,13 @@ func (c *Chain) fillPayload(p *ProposeCtx) {
 	pl.ExtraData = c.Rng.Bytes(c.Rng.Intn(33))
 	pl.BaseFeePerGas = view.Uint256View{uint64(c.Rng.Intn(1 << 30)), 0, 0, 0}
 	copy(pl.BlockHash[:], c.Rng.Bytes(32))
+	if p.Ops["payload_merge_block"] > 0 && c.ZeroHashMerge {
+		// merge-transition payload that is non-default (prev_randao, timestamp, fee recipient, …) but has block_hash = 0:
+		// is_merge_transition_block compares the WHOLE payload with the default one, so execution is enabled, the engine is
+		// consulted and the header (with block_hash 0) is stored
+		pl.BlockHash = common.Root{}
+		p.Ops["payload_merge_block_zero_hash"]++
+	}
 	ntx := c.Rng.Intn(4)
 	pl.Transactions = nil
 	for i := 0; i < ntx; i++ {
@@ -834,6 +845,18 @@ func (c *Chain) BadDepositor() string {
 	c.QueueDeposit(dd)
 	c.Stats.Inc("deposits_queued_to_be_skipped_" + kind)
 	return kind
+}
+
+// fractionalAboveMax: an amount above MAX_EFFECTIVE_BALANCE that is not a whole number of increments (32.5, 100.25, … ETH):
+// effective balance must be min(balance - balance % INCREMENT, MAX), not min(balance, MAX) - balance % INCREMENT.
+func (c *Chain) fractionalAboveMax() common.Gwei {
+	inc := c.Spec.EFFECTIVE_BALANCE_INCREMENT
+	whole := common.Gwei(pick(c.Rng, 0, 0, 1, 3, 68))
+	frac := inc / common.Gwei(pick(c.Rng, 2, 4, 8))
+	if c.Rng.Chance(20) {
+		frac = inc - 1
+	}
+	return c.Spec.MAX_EFFECTIVE_BALANCE + whole*inc + frac
 }
 
 // TopUp queues a deposit for an existing validator (signature deliberately sometimes invalid: it is not checked).
@@ -977,6 +1000,12 @@ func (c *Chain) learnValidators() {
 		}
 		c.Vals = append(c.Vals, ValInfo{Key: g.Key, WKey: g.WKey, Addr: g.Addr})
 		c.Stats.Inc("validators_added_by_deposit")
+		if g.Balance > c.Spec.MAX_EFFECTIVE_BALANCE && g.Balance%c.Spec.EFFECTIVE_BALANCE_INCREMENT != 0 {
+			c.Stats.Inc("validators_added_with_fractional_amount_above_max")
+			if c.Slot()%c.Spec.SLOTS_PER_EPOCH != 0 {
+				c.Stats.Inc("validators_added_with_fractional_amount_above_max_mid_epoch")
+			}
+		}
 		if c.Slot()%c.Spec.SLOTS_PER_EPOCH != 0 {
 			c.Stats.Inc("validators_added_mid_epoch")
 		}
@@ -1158,7 +1187,7 @@ func (c *Chain) Propose(s common.Slot) (bool, error) {
 	postID := c.Rec.State(res.Post)
 	line := c.Rec.Line("trans %s %s 1 %s %s kind=honest %s", preID, blkID, engMode, postID, tags)
 	c.recordEngine(line, res.Engine)
-	c.Honest = append(c.Honest, HonestStep{PreID: preID, Blk: p.B, BlkID: blkID, Engine: engMode, Line: line})
+	c.Honest = append(c.Honest, HonestStep{PreID: preID, Blk: p.B, BlkID: blkID, Engine: engMode, Line: line, HasPayload: p.Ops["payload"] > 0, ZeroHashMerge: p.Ops["payload_merge_block_zero_hash"] > 0})
 	c.Stats.Inc("blocks")
 	c.Stats.Inc(fork.String() + ".blocks")
 	{
@@ -1268,15 +1297,24 @@ func (c *Chain) defaultOps(p *ProposeCtx) {
 		for i := 0; i < k; i++ {
 			switch r.Intn(5) {
 			case 0:
-				c.TopUp(common.ValidatorIndex(r.Intn(len(c.Vals))), c.Spec.MIN_DEPOSIT_AMOUNT*common.Gwei(1+r.Intn(3)))
+				ta := c.Spec.MIN_DEPOSIT_AMOUNT * common.Gwei(1+r.Intn(3))
+				if r.Bool() {
+					ta += c.Spec.EFFECTIVE_BALANCE_INCREMENT / common.Gwei(pick(r, 2, 4, 8, 1000)) // fractional top-up
+				}
+				c.TopUp(common.ValidatorIndex(r.Intn(len(c.Vals))), ta)
 			case 1:
 				c.BadDepositor()
 			default:
 				amt := c.Spec.MAX_EFFECTIVE_BALANCE
-				if r.Chance(25) {
+				switch x := r.Intn(100); {
+				case x < 20:
 					amt -= c.Spec.EFFECTIVE_BALANCE_INCREMENT * common.Gwei(1+r.Intn(3))
-				} else if r.Chance(20) {
+				case x < 35:
 					amt += c.Spec.EFFECTIVE_BALANCE_INCREMENT * common.Gwei(1+r.Intn(3))
+				case x < 60:
+					amt = c.fractionalAboveMax()
+				case x < 68:
+					amt -= c.Spec.EFFECTIVE_BALANCE_INCREMENT / common.Gwei(pick(r, 2, 4, 1000))
 				}
 				c.NewDepositor(amt, r.Chance(40))
 			}
